@@ -444,6 +444,81 @@ def table_full_scenario(args):
     return ('ok', None, wit)
 
 
+def evict_scenario(args):
+    """all 16 slots in use and clean, each buffer left on a line of its own; further files take the least recently used slots:
+    a newly read file starts on its first line with its own text, whoever had the slot before, and so does an evicted file read again"""
+    vi, idx = args
+    R = rng('c20', 'evict', idx)
+    files = {('f%d' % i): b''.join(b'f%d line %d\n' % (i, j) for j in range(1, 8)) for i in range(1, 21)}
+    order = list(range(2, 17))
+    R.shuffle(order)
+    script = b'%d\n' % R.randint(2, 7) + b''.join(b'e f%d\n%d\n' % (i, R.randint(2, 7)) for i in order)
+    newf = R.sample(range(17, 21), R.randint(1, 4)) + [1]          # (f1 was the least recently used: evicted first, read again last)
+    for k, i in enumerate(newf):
+        script += b'e f%d\nec ' % i + S(10 + k) + b'\n.=\np\nec ' + S(30 + k) + b'\n'
+    r, d = common.run_ex(vi, script, files=files, timeout=60)
+    common.rmcase(d)
+    wit = {'index': idx, 'script': script}
+    if r.timed_out or common.san_report(r):
+        return ('inconclusive', None, wit)
+    for k, i in enumerate(newf):
+        if S(10 + k) not in r.out or S(30 + k) not in r.out:
+            return ('inconclusive', None, wit)
+        got = r.out.split(S(10 + k), 1)[1].split(S(30 + k), 1)[0]
+        if got != b'1\nf%d line 1\n' % i:
+            return ('evict:new-buffer-position', '16 buffers open, then f%d is read into a reused slot: current line and its text are %r, expected line 1' % (i, common.show(got, 60)), wit)
+    return ('ok', None, wit)
+
+
+def arglist_scenario(args):
+    """several files on the command line, :n / :prev mixed with edits, writes and switches by name: the buffer
+    reached is the next / previous argument counted from the last one REACHED through the list; a refused :n moves nothing"""
+    vi, idx = args
+    R = rng('c20', 'arglist', idx)
+    names = ['fa', 'fb', 'fc', 'fd'][:R.choice([2, 3, 4, 4])]
+    files = {n: b'%s line 1\n%s line 2\n' % (n.encode(), n.encode()) for n in names}
+    pos, cur = 0, names[0]
+    dirty = {n: False for n in names}
+    script = b''
+    exp = []
+    ops = []
+    for k in range(R.randint(6, 20)):
+        x = R.random()
+        if x < 0.3:
+            op = R.choice(['n', 'n', 'prev', 'prev'])      # (neatvi has no n! / prev!)
+            tgt = pos + (1 if op[0] == 'n' else -1)
+            if 0 <= tgt < len(names) and not dirty[cur]:
+                pos, cur = tgt, names[tgt]
+        elif x < 0.55:
+            op = R.choice(['1s/^/X/', '2s/$/Y/'])
+            dirty[cur] = True
+        elif x < 0.7:
+            op = 'w'
+            dirty[cur] = False
+        else:
+            t = R.choice([n for n in names if n != cur])
+            bang = R.random() < 0.4
+            op = 'e%s %s' % ('!' if bang else '', t)
+            if bang or not dirty[cur]:
+                cur = t
+        ops.append(op)
+        script += op.encode() + b'\nec ' + S(10 + k) + b'\n1p\nec ' + S(40 + k) + b'\n'
+        exp.append(cur)
+    r, d = common.run_ex(vi, script, files=files, timeout=60, args=names)
+    common.rmcase(d)
+    wit = {'index': idx, 'args': names, 'ops': ops}
+    if r.timed_out or common.san_report(r):
+        return ('inconclusive', None, wit)
+    for k, want in enumerate(exp):
+        if S(10 + k) not in r.out or S(40 + k) not in r.out:
+            return ('inconclusive', None, wit)
+        got = r.out.split(S(10 + k), 1)[1].split(S(40 + k), 1)[0]
+        m = re.search(rb'(f[a-d]) line 1', got)
+        if not m or m.group(1).decode() != want:
+            return ('arglist:buffer-reached', 'files %s, after %s the current buffer shows %r, expected the buffer of %s' % (names, ops[:k + 1], common.show(got, 40), want), wit)
+    return ('ok', None, wit)
+
+
 def unnamed_alt_scenario(args):
     """the buffer without a file name is one of the two most recent buffers: `#` / `%` reach it like any other buffer"""
     vi, idx = args
@@ -529,7 +604,7 @@ def run(tier, V):
             V.violation(key, what, wit)
     nsc = 150 if tier == 'quick' else 2500
     scok = 0
-    for fn in (aw_scenario, split_scenario, unnamed_alt_scenario, table_full_scenario, unnamed_named_scenario):
+    for fn in (aw_scenario, split_scenario, unnamed_alt_scenario, table_full_scenario, unnamed_named_scenario, evict_scenario, arglist_scenario):
         for key, what, wit in pmap(fn, [(vi, base + i) for i in range(nsc)]):
             if key == 'inconclusive':
                 V.inconclusive += 1
@@ -537,11 +612,11 @@ def run(tier, V):
                 scok += 1
             elif key != 'ok-trivial':
                 V.violation(key, what, wit)
-    nchk += 5 * nsc
+    nchk += 7 * nsc
     nsw += scok
     cov = {'autowrite_and_split_window_scenarios': 2 * nsc, 'evaluations': nchk, 'distinct_nontrivial': nsw, 'histories': n, 'observations': nchk, 'switches_checked': nsw, 'cuts': cuts,
            'rule': ('%d histories of 10-50 ops over 2,3,5,8 or 16 files: open (:e), switch (:e path, :e!, :e #, :b N, :b +/-, :b %%/#/^), edit, undo, redo, write, delete-buffer (:b !), renumber (:b ~), tag jumps and pops (:ta, :po), '
-                    'change of a file on disk behind the editor, final :q; + autowrite scenarios (several modified buffers, :se aw, :q/:x/:wq: every file gets the text of its own buffer) + vi scenarios with two windows on two buffers (each keeps its own cursor line) + buffers named by their first :w with names that need expanding.  after EVERY op: buffer list (ids, MRU order, flags), current line and a dump of the current buffer are observed and compared with the '
+                    'change of a file on disk behind the editor, final :q; + autowrite scenarios (several modified buffers, :se aw, :q/:x/:wq: every file gets the text of its own buffer) + vi scenarios with two windows on two buffers (each keeps its own cursor line) + buffers named by their first :w with names that need expanding + files read into reused slots of a full table + argument-list walks (:n, :prev, also refused ones).  after EVERY op: buffer list (ids, MRU order, flags), current line and a dump of the current buffer are observed and compared with the '
                     'model.  non-trivial = an observation right after a successful switch (text, line and flags of the reached buffer compared with how it was left).' % n),
            'samples': [{'ops': [c.decode() for _, c in gen_history(rng('c20', base), 3, 12) if c]}]}
     assumptions = ['edits used are prefix insertions / appended lines with unique letters, so that equal texts mean equal history positions',
